@@ -113,7 +113,7 @@ Proof. intros; unfold node_trace; apply filter_app. Qed.
 Fixpoint mop_touch (n : nat) (m : mop) : bool :=
   match m with
   | Skip | CallRandom | RetryIfUnset | ReadForHash _ => false
-  | AtomicAdd c _ | AtomicSub c _ | AtomicSubFetch c _ | Load c | Store c _ | CAS c _
+  | AtomicAdd c _ | AtomicSub c _ | AtomicSubFetch c _ | Load c | AtomicLoad c | Store c _ | CAS c _
   | CASOnce c _ | StoreFresh c => cell_eqb c (RC n)
   | BranchDestroyIfResultZero k => Nat.eqb k n
   | IfUnset b => existsb (mop_touch n) b
@@ -558,7 +558,7 @@ Qed.
 Fixpoint mop_sfree (m : mop) : bool :=
   match m with
   | Skip | BranchDestroyIfResultZero _ | CallRandom | RetryIfUnset => true
-  | AtomicAdd c _ | AtomicSub c _ | AtomicSubFetch c _ | Load c | Store c _ | CAS c _
+  | AtomicAdd c _ | AtomicSub c _ | AtomicSubFetch c _ | Load c | AtomicLoad c | Store c _ | CAS c _
   | CASOnce c _ | StoreFresh c => negb (cell_eqb c Seed)
   | IfUnset b => forallb mop_sfree b
   | ReadForHash _ => false
@@ -867,6 +867,22 @@ Proof.
   - unfold wf_init, total_get, rc_two, h1, UINT32_MAX; simpl.
     repeat split; try lia; repeat constructor; simpl; lia.
   - vm_compute. split; reflexivity.
+Qed.
+
+(* the same with an ATOMIC re-read (every access to the count is atomic, no data race in the
+   C11 sense): the two last owners both decrement, both read 0, both destroy *)
+Definition reread_atomic_impl : impl_t := mkImpl atomic_get reread_atomic_put cas_seed.
+
+Theorem reread_atomic_double_destroy :
+  exists ths sch, wf_init 0 rc_two ths /\
+    let st := run reread_atomic_impl rnd_ex (init_state rc_two ths) sch in
+    finished st = true /\ destroy_count 0 (trace st) = 2 /\
+    Forall atomic_ev (node_trace 0 (trace st)).
+Proof.
+  exists [([Put 0]%nat, h1 1); ([Put 0]%nat, h1 1)], [0;1;0;1;0;1]%nat. split.
+  - unfold wf_init, total_get, rc_two, h1, UINT32_MAX; simpl.
+    repeat split; try lia; repeat constructor; simpl; lia.
+  - vm_compute. repeat split; try reflexivity. repeat constructor.
 Qed.
 
 (* the loser of the CAS race hashes with its own fresh value *)
